@@ -18,9 +18,16 @@ build() { # $1 = output, $2.. = extra flags
     # the remote export shim may not fit a refactored tree: fall back to a build without it
     python3 "$VERIF/instr/gen_overlay.py" "$REPO" "$WORK/ov" noexport > /dev/null || return 1
     if ! (cd "$VERIF/harness" && go build -modfile="$WORK/mod/go.mod" -tags verif -overlay="$WORK/ov/overlay.json" "$@" -o "$out" . ) 2> "$WORK/build2.err"; then
-      echo "BUILD FAILED" >&2; cat "$WORK/build.err" "$WORK/build2.err" >&2; return 1
+      # the import shims may not fit either (a tree that uses sync or sync/atomic in a way they do not
+      # cover): last resort is the uninstrumented tree under plain stress
+      python3 "$VERIF/instr/gen_overlay.py" "$REPO" "$WORK/ov" plain > /dev/null || return 1
+      if ! (cd "$VERIF/harness" && go build -modfile="$WORK/mod/go.mod" -tags verif -overlay="$WORK/ov/overlay.json" "$@" -o "$out" . ) 2> "$WORK/build3.err"; then
+        echo "BUILD FAILED" >&2; cat "$WORK/build.err" "$WORK/build2.err" "$WORK/build3.err" >&2; return 1
+      fi
+      echo "note: built without instrumentation (the import shims no longer compile against this tree)" >&2
+      touch "$WORK/plain"
     fi
-    echo "note: built without the remote export shim (it no longer compiles against this tree)" >&2
+    [ -e "$WORK/plain" ] || echo "note: built without the remote export shim (it no longer compiles against this tree)" >&2
     touch "$WORK/noexport"
   fi
 }
